@@ -13,7 +13,7 @@ SPEC = {
             'reordered prefixes; every single-bit flip of the smallest envelope (sampled above the budget); field substitutions '
             'between envelopes and an envelope of another group; forgeries built with real keys by a fellow member who registered '
             'the sender\'s chain key (replay under another counter, missing / foreign / reused signature, wrong key, after delivery, '
-            'beyond the window); every rejected substitution / forgery is presented again, twice, under the same CID (a rejection must leave nothing behind); non-trivial = every case except an in-order round trip; distinct = distinct case term',
+            'beyond the window); the same fellow member on the push path (OutOfStoreMessageOpen with another payload under the key of a counter, naming the identifier of a message the receiver has or has not yet opened through the log: oracle only); every rejected substitution / forgery is presented again, twice, under the same CID (a rejection must leave nothing behind); non-trivial = every case except an in-order round trip; distinct = distinct case term',
     'trusted_base': [
         'Coq 8.16.1 kernel; vm_compute for evaluating the model on cases',
         'no axioms',
